@@ -350,7 +350,7 @@ func runC10(c *run.Ctx) {
 	sess := bridge.NewSession(user)
 	// structural half A: trees from the parser-level generator (all node
 	// kinds in all operand positions, built-in table)
-	nA := c.Pick(6000, 150000)
+	nA := c.Pick(6000, 400000)
 	for i := 0; i < nA; i++ {
 		if !c.Mine(i) {
 			continue
@@ -377,7 +377,7 @@ func runC10(c *run.Ctx) {
 	}
 	// structural half B + semantic half: generated well-typed programs
 	opt := ref.GenOpt{MaxDepth: 5, PFail: 0.04, PSugar: 0.85, PBoundary: 0.1, PGroup: 0.12, UserFuns: true}
-	nB := c.Pick(3000, 60000)
+	nB := c.Pick(3000, 150000)
 	for i := 0; i < nB; i++ {
 		if !c.Mine(i) {
 			continue
